@@ -65,6 +65,8 @@ def h_delims(a: int, b: int, c: int, n: int, i: int) -> bool:
     segs = _variant(i)
     if any([(d in s.replace('*', '').replace(':', '')) for s in segs[1:] for d in (st, et, ct)]):
         return True      # the new delimiters must be absent from the data
+    if any([(d in f) for f in segs[0].split('*')[1:16] for d in (st, et, ct)]):
+        return True      # ... including the ISA fields (in 00501 ISA11 holds the repetition separator, e.g. '^')
     r = docs.validate(reencode(segs, st, et, ct, eol))
     ref = _REF[i]
     return (r.verdict, _norm_ack(r.ack), type(r.exc).__name__) == (ref[0], _norm_ack(ref[1]), ref[2])
